@@ -227,49 +227,65 @@ def run(repo, rep, tier):
     rep.fn(MOD, q)
     fn = repo.func(MOD, q)
     n_ = [a.arg for a in fn.args.args]
-    t = ret_term(repo, MOD, q, arg_terms={n_[0]: ("angle", T.sym("OM")), n_[1]: T.sym("E_"), n_[2]: T.sym("A"), n_[3]: ("epoch", T.sym("T0")), n_[4]: T.sym("ASC")})
     site = MOD + "." + q
-    if t[0] != "tuple" or len(t) != 3 or t[1][0] != "epoch":
-        rep.violation("R-E4-ID", site, "shape", "does not return (Epoch, r)", obligation=True)
-    else:
-        vdeg = T.phi(T.sym("ASC"), T.sub(T.num(360), T.sym("OM")), T.sub(T.num(180), T.sym("OM")))
+    verdicts = []
+    for asc, base in ((True, 360), (False, 180)):
+        # the node flag is bound to each of its two values (partial evaluation): v = 360 - omega / 180 - omega
+        t = ret_term(repo, MOD, q, arg_terms={n_[0]: ("angle", T.sym("OM")), n_[1]: T.sym("E_"), n_[2]: T.sym("A"), n_[3]: ("epoch", T.sym("T0")),
+                                              n_[4]: ("bool", asc)})
+        if t[0] != "tuple" or len(t) != 3 or t[1][0] != "epoch":
+            verdicts.append("shape")
+            continue
+        vdeg = T.sub(T.num(base), T.sym("OM"))
         EE = T.mul(T.num(2), T.call("atan", T.mul(T.call("sqrt", T.div(T.sub(T.ONE, E_), T.add(T.ONE, E_))),
                                                  T.call("tan", T.mul(T.num(Fraction(1, 2)), vdeg, D2R)))))
-        ees = [x for x in T.walk(t[2]) if x[0] == "call" and x[1] == "cos"]
-        ok_E = len(ees) >= 1 and ees[0][2] == EE
-        a3 = Algebra()
-        ok_r = ok_E and a3.equal(t[2], T.mul(A_, T.sub(T.ONE, T.mul(E_, T.call("cos", EE)))))
-        M = T.sub(EE, T.mul(E_, T.call("sin", EE)))
-        n = T.div(T.num(Fraction("0.9856076686")), T.mul(A_, T.call("sqrt", A_)))
-        want_t = T.add(T.sym("T0"), T.div(T.mul(M, T.power(D2R, T.num(-1))), n))
-        ok_t = ok_E and a3.equal(t[1][1], want_t)
-        # reciprocal factor relation with the forward formula
-        ok_k = Algebra().equal(T.mul(T.div(T.add(T.ONE, E_), T.sub(T.ONE, E_)), T.div(T.sub(T.ONE, E_), T.add(T.ONE, E_))), T.ONE)
-        if ok_E and ok_r and ok_t and ok_k:
-            rep.ok("R-E4-ID", site, "E = 2*atan(sqrt((1-e)/(1+e))*tan(v/2)) with v = 360-omega / 180-omega; M = E - e sin E; time = t + degrees(M)/(0.9856076686/a^1.5); r = a(1 - e cos E)", obligation=True)
-        else:
-            rep.violation("R-E4-ID", site, "node-passage", "elliptic node passage differs from the two-body relations (E ok=%s, r ok=%s, time ok=%s)" % (ok_E, ok_r, ok_t), obligation=True)
+        a3 = Algebra(atomize=True)
+        try:
+            ok_r = a3.equal(t[2], T.mul(A_, T.sub(T.ONE, T.mul(E_, T.call("cos", EE)))))
+            M = T.sub(EE, T.mul(E_, T.call("sin", EE)))
+            n = T.div(T.num(Fraction("0.9856076686")), T.mul(A_, T.call("sqrt", A_)))
+            want_t = T.add(T.sym("T0"), T.div(T.mul(M, T.power(D2R, T.num(-1))), n))
+            ok_t = a3.equal(t[1][1], want_t)
+        except Exception:
+            ok_r = ok_t = False
+        verdicts.append("ok" if (ok_r and ok_t) else "r ok=%s, time ok=%s" % (ok_r, ok_t))
+    if verdicts == ["ok", "ok"]:
+        rep.ok("R-E4-ID", site, "E = 2*atan(sqrt((1-e)/(1+e))*tan(v/2)) with v = 360-omega / 180-omega; M = E - e sin E; time = t + degrees(M)/(0.9856076686/a^1.5); r = a(1 - e cos E)", obligation=True)
+    elif "shape" in verdicts:
+        rep.violation("R-E4-ID", site, "shape", "does not return (Epoch, r)", obligation=True)
+    else:
+        rep.violation("R-E4-ID", site, "node-passage", "elliptic node passage differs from the two-body relations (ascending: %s; descending: %s)" % tuple(verdicts), obligation=True)
     q = "passage_nodes_parabolic"
     rep.fn(MOD, q)
     fn = repo.func(MOD, q)
     n_ = [a.arg for a in fn.args.args]
-    t = ret_term(repo, MOD, q, arg_terms={n_[0]: ("angle", T.sym("OM")), n_[1]: T.sym("Q"), n_[2]: ("epoch", T.sym("T0")), n_[3]: T.sym("ASC")})
     site = MOD + "." + q
-    if t[0] != "tuple" or len(t) != 3 or t[1][0] != "epoch":
+    verdicts = []
+    kk = math.sqrt(2.0) / (3.0 * 0.01720209895)
+    kfound = None
+    for asc, base in ((True, 360), (False, 180)):
+        t = ret_term(repo, MOD, q, arg_terms={n_[0]: ("angle", T.sym("OM")), n_[1]: T.sym("Q"), n_[2]: ("epoch", T.sym("T0")), n_[3]: ("bool", asc)})
+        if t[0] != "tuple" or len(t) != 3 or t[1][0] != "epoch":
+            verdicts.append("shape")
+            continue
+        vdeg = T.sub(T.num(base), T.sym("OM"))
+        s = T.call("tan", T.mul(T.num(Fraction(1, 2)), vdeg, D2R))
+        a4 = Algebra(atomize=True)
+        try:
+            ok_r = a4.equal(t[2], T.mul(T.sym("Q"), T.add(T.ONE, T.mul(s, s))))
+            dt = T.sub(t[1][1], T.sym("T0"))
+            shape = T.mul(s, T.add(T.mul(s, s), T.num(3)), T.sym("Q"), T.call("sqrt", T.sym("Q")))
+            k = proportional(a4, dt, shape)
+        except Exception:
+            ok_r, k = False, None
+        kfound = k if kfound is None else kfound
+        verdicts.append("ok" if (ok_r and k is not None and abs(k / kk - 1.0) <= 1e-6) else "r ok=%s, constant %s vs %.6f" % (ok_r, k, kk))
+    if verdicts == ["ok", "ok"]:
+        rep.ok("R-E4-ID", site, "r == q(1 + s^2), time == t + %.6f*(s^3 + 3s)*q^1.5 with Barker's constant sqrt(2)/(3k) = %.6f (rel %.1e)" % (kfound, kk, abs(kfound / kk - 1)), obligation=True)
+    elif "shape" in verdicts:
         rep.violation("R-E4-ID", site, "shape", "does not return (Epoch, r)", obligation=True)
     else:
-        vdeg = T.phi(T.sym("ASC"), T.sub(T.num(360), T.sym("OM")), T.sub(T.num(180), T.sym("OM")))
-        s = T.call("tan", T.mul(T.num(Fraction(1, 2)), vdeg, D2R))
-        a4 = Algebra()
-        ok_r = a4.equal(t[2], T.mul(T.sym("Q"), T.add(T.ONE, T.mul(s, s))))
-        dt = T.sub(t[1][1], T.sym("T0"))
-        shape = T.mul(s, T.add(T.mul(s, s), T.num(3)), T.sym("Q"), T.call("sqrt", T.sym("Q")))
-        k = proportional(a4, dt, shape)
-        kk = math.sqrt(2.0) / (3.0 * 0.01720209895)
-        if ok_r and k is not None and abs(k / kk - 1.0) <= 1e-6:
-            rep.ok("R-E4-ID", site, "r == q(1 + s^2), time == t + %.6f*(s^3 + 3s)*q^1.5 with Barker's constant sqrt(2)/(3k) = %.6f (rel %.1e)" % (k, kk, abs(k / kk - 1)), obligation=True)
-        else:
-            rep.violation("R-E4-ID", site, "parabolic-passage", "parabolic node passage differs from Barker's equation (r ok=%s, constant %s vs %.6f)" % (ok_r, k, kk), obligation=True)
+        rep.violation("R-E4-ID", site, "parabolic-passage", "parabolic node passage differs from Barker's equation (ascending: %s; descending: %s)" % tuple(verdicts), obligation=True)
     orbit_length(repo, rep)
     fam = [(MOD, x) for x in ("kepler_equation", "velocity", "velocity_perihelion", "velocity_aphelion", "length_orbit",
                               "passage_nodes_elliptic", "passage_nodes_parabolic", "phase_angle", "illuminated_fraction", "orbital_elements")]
